@@ -31,9 +31,9 @@ import os
 import vlib
 
 PROP = "C17"
-INVS = ['TypeOK', 'InFlightExact', 'AtMostOnce', 'OneEnd', 'EndIsClean', 'NothingAfterEnd',
+INVS = ['TypeOK', 'VerifiedOrResent', 'InFlightExact', 'AtMostOnce', 'OneEnd', 'EndIsClean', 'NothingAfterEnd',
         'NoSkippedAfterPlan', 'ResendOnce', 'CompleteAtEnd', 'ResendAtQuiescence', 'NoStuck']
-INTENDED = dict(Wide=False, EndChecksResend=True, VerifyAfterEnd=False)
+INTENDED = dict(Wide=False, EndChecksResend=True, VerifyAfterEnd=False, SkipUnverifiable=False)
 
 
 def run(tier, seed):
@@ -58,8 +58,9 @@ def run(tier, seed):
         raise vlib.HarnessTrouble("Dispatch.tla liveness violated:\n" + rl['violation_text'][:2000])
     # 2. non-vacuity: each defect switch must be refuted
     refuted = {}
-    for name, sw, inv in [("EndChecksResend=FALSE", dict(Wide=False, EndChecksResend=False, VerifyAfterEnd=False), 'EndIsClean'),
-                          ("VerifyAfterEnd=TRUE", dict(Wide=False, EndChecksResend=True, VerifyAfterEnd=True), 'NothingAfterEnd')]:
+    for name, sw, inv in [("EndChecksResend=FALSE", dict(Wide=False, EndChecksResend=False, VerifyAfterEnd=False, SkipUnverifiable=False), 'EndIsClean'),
+                          ("VerifyAfterEnd=TRUE", dict(Wide=False, EndChecksResend=True, VerifyAfterEnd=True, SkipUnverifiable=False), 'NothingAfterEnd'),
+                          ("SkipUnverifiable=TRUE", dict(Wide=False, EndChecksResend=True, VerifyAfterEnd=False, SkipUnverifiable=True), 'VerifiedOrResent')]:
         cn = dict(Track=True, MaxN=3, W=2, MaxTail=1, **sw)
         rn = vlib.run_tlc('Dispatch', dict(constants=cn, invariants=[inv], view='View'), workers=8,
                           want_edges=False, expect_violation=True)
